@@ -1,5 +1,6 @@
 From Coq Require Import List Arith Bool.
-From WV Require Import Lib.Conc Model.ChanClose Proof.ChanCloseBase Proof.ChanCloseInv Proof.ChanCloseRefute.
+From WV Require Import Lib.Conc Model.ChanClose Proof.ChanCloseBase Proof.ChanCloseInv Proof.ChanCloseRefute
+  Proof.ChanCloseAfter Proof.ChanCloseEntry.
 Import ListNotations.
 
 (* C11 for every schedule, every lookahead L and every environment behaviour, for the close
@@ -44,3 +45,23 @@ Theorem C11_entry_excludes_service : forall L sched,
   (queue s = 1 -> reqs s <> [] /\ (forall w, active (wk s w) = false) /\ ~ tokio s /\ sd s = SdIdle).
 Proof. exact entry_excludes_service. Qed.
 Print Assumptions C11_entry_excludes_service.
+
+(* after the worker's close decision: nothing is queued, submitted or started any more, and
+   requests is empty (or being emptied by the deciding worker, which still holds the lock) *)
+Theorem C11_after_worker_close : forall L sched i j x,
+  let tr := trace step (init L) sched in
+  nth_error tr i = Some (LDecide DWorkerClose) -> i < j -> nth_error tr j = Some x -> loud x = false.
+Proof. exact after_worker_close_positions. Qed.
+Print Assumptions C11_after_worker_close.
+
+Theorem C11_after_worker_close_state : forall L sched,
+  let s := run step (init L) sched in
+  In (LDecide DWorkerClose) (trace step (init L) sched) ->
+  Closed s /\ (reqs s = [] \/ exists w, at_close2 (wk s w) = true).
+Proof. exact after_worker_close_state. Qed.
+Print Assumptions C11_after_worker_close_state.
+
+(* connected and requests <> []  ->  somebody holds the channel (entry / worker / I/O about to submit) *)
+Theorem C11_requests_are_held : forall L sched, Entry (run step (init L) sched).
+Proof. exact Entry_run. Qed.
+Print Assumptions C11_requests_are_held.
